@@ -433,7 +433,10 @@ def prepare_harness():
         return
     dst = os.path.join(HARNESS, "Cargo.lock")
     if not os.path.exists(dst):
-        shutil.copy(os.path.join(REPO, "Cargo.lock"), dst)
+        src = os.path.join(REPO, "Cargo.lock")
+        if not os.path.exists(src):     # /repo ignores its lock file: a fresh checkout has none; use the copy pinned in /verif
+            src = os.path.join(HARNESS, "Cargo.lock.pinned")
+        shutil.copy(src, dst)
     _prepared = True
 
 
